@@ -4,12 +4,23 @@ STAGE_FILES = {}
 
 LIB = ['Base/Outcome', 'Base/Ctl', 'Base/Bits', 'Base/Finite', 'Base/Tree', 'Base/Machine', 'Impl']
 
+def ps2_prop(pid, extra_lib, corr='Corr/Ps2Bits'):
+    return {
+        'lib': LIB + ['Spec/Frame', 'Check/Ps2M'] + extra_lib,
+        'syn': ['Props/%s' % pid], 'needs_syn': ['Syn/Ps2'] + extra_lib,
+        'ext': ['Props/%s_ext' % pid], 'needs_ext': ['ExtI/Ps2'] + extra_lib,
+        'corr': [corr], 'needs_corr': ['Syn/Ps2', 'ExtI/Ps2'],
+        'cex_ext': 'Cex/%s_ext' % pid, 'cex_syn': 'Cex/%s_syn' % pid,
+    }
+
+
 PROPS = {
+    'C06': dict(ps2_prop('C06', ['Check/C06']), replay_kind='bits'),
     'C05': {
         'lib': LIB + ['Spec/Frame', 'Check/C05'],
         'syn': ['Props/C05'], 'needs_syn': ['Syn/Ps2', 'Check/C05'],
         'ext': ['Props/C05_ext'], 'needs_ext': ['ExtI/Ps2', 'Check/C05'],
-        'corr': ['Corr/Ps2'], 'needs_corr': ['Syn/Ps2', 'ExtI/Ps2'],
+        'corr': ['Corr/Ps2Words'], 'needs_corr': ['Syn/Ps2', 'ExtI/Ps2'],
         'cex_ext': 'Cex/C05_ext', 'cex_syn': 'Cex/C05_syn',
         'replay_kind': 'word',
     },
